@@ -187,6 +187,47 @@ class LockRegions:
             if h:
                 out[k] = frozenset(out.get(k, frozenset()) | h)
 
+    def leaks(self, func):
+        """[(lock id, exit kind, acquiring cfg node)] for locks taken with an explicit
+        acquire() in func that may still be held when func is left (may-hold dataflow:
+        union at joins, exceptional edges included).  `with L:` cannot leak."""
+        if not any(isinstance(n, ast.Call) and isinstance(n.func, ast.Attribute) and n.func.attr == "acquire" for n in ast.walk(func.node)):
+            return []
+        from .cfg import cfg_of
+        g = cfg_of(func)
+        IN = {g.entry.id: frozenset()}
+        work = [g.entry]
+
+        def transfer(n, label):
+            h = set(IN[n.id])
+            a = n.ast
+            if n.kind == "stmt" and isinstance(a, ast.Expr):
+                lid = self._is_call(func, a.value, "acquire")
+                if lid and label != "exc":
+                    h.add((lid, n.id))
+                lid = self._is_call(func, a.value, "release")
+                if lid:
+                    h = {x for x in h if x[0] != lid}
+            elif n.kind == "branch" and n.polarity is True:
+                lid = self._is_call(func, a, "acquire")
+                if lid:
+                    h.add((lid, n.id))
+            return frozenset(h)
+        while work:
+            n = work.pop()
+            for (sx, label) in n.succ:
+                h = transfer(n, label)
+                old = IN.get(sx.id)
+                new = h if old is None else (old | h)
+                if new != old:
+                    IN[sx.id] = new
+                    work.append(sx)
+        out = []
+        for ex, kind in ((g.exit, "return"), (g.raise_exit, "exception")):
+            for (lid, nid) in sorted(IN.get(ex.id, ())):
+                out.append((lid, kind, g.nodes[nid]))
+        return out
+
     def held_lex(self, func, stmt):
         return self.lexical(func).get(id(stmt), frozenset())
 
